@@ -174,6 +174,7 @@ def step (fn : Fn Float) (sp : Sp Float) (regs : Array Val) (j : Json) : Except 
   | "inverse" => pure (.num (inverseChain fn (← getMsg regs j "a").trs (← getFloat j "x")))
   -- Gamma / Beta families and the every-family forms (`AFModel/MsgGB.lean`)
   | "logpdfx" => pure (.num ((← getMsg regs j "a").logpdfX fn sp (← getFloat j "x")))
+  | "meanx" => pure (.num ((← getMsg regs j "a").meanX fn sp))
   | "expstats" => let e := (← getMsg regs j "a").base.expectedStats fn sp; pure (.pair e.1 e.2)
   | "canon" =>
     let t := toCanonical fn sp (← getMsg regs j "a").base.fam (← getFloat j "x"); pure (.pair t.1 t.2)
